@@ -102,7 +102,7 @@ def site_of(stderr):
     return (m.group(1) if m else "signal"), (f[0] if f else "?")
 
 
-def run_workload(L, wl, every=1):
+def run_workload(L, wl, every=1, shorts=True):
     name = wl[0]
     gold = run_once(L, wl, 0, False, False)
     if gold.get("crashed") or "harness_error" in gold:
@@ -115,7 +115,7 @@ def run_workload(L, wl, every=1):
         if every > 1 and k % every and k != N:
             continue
         for sticky in (False, True):
-            for short in (False, True):
+            for short in ((False, True) if shorts else (False,)):
                 r = run_once(L, wl, k, sticky, short)
                 if "harness_error" in r:
                     return {"workload": name, "error": r["harness_error"] + r.get("tb", "")}
@@ -160,7 +160,7 @@ def main():
         elif a.tier == "thorough":
             wls.append((w, 1))
         else:
-            wls.append((w, 1 if w[3] else 5))      # quick: every k for the core six, every 5th k for the rest
+            wls.append((w, 1))                     # quick: every k; short counts only for the core workloads
     pids = []
     for i, (wl, every) in enumerate(wls):
         while len(pids) >= a.jobs:
@@ -168,7 +168,7 @@ def main():
         pid = os.fork()
         if pid == 0:
             try:
-                res = run_workload(L, wl, every)
+                res = run_workload(L, wl, every, shorts=(a.tier == "thorough" or bool(a.only) or wl[3]))
             except BaseException as e:
                 import traceback
                 res = {"workload": wl[0], "error": "%r %s" % (e, traceback.format_exc()[-800:])}
